@@ -44,6 +44,18 @@ RECEIVE = [inh("receive", "LDAPServer"), inh("receive", "LDAPClient"), j(f"{S}:L
            j("_messages:unpack_ldap_message")]
 LEMMAS_FRAMING = [j("specs.sess:" + n) for n in ("lemma_tlv_prefix", "lemma_chunk", "lemma_residue_incomplete", "lemma_any_chunking")] + \
                  [j("specs.ber:" + n) for n in ("lemma_b128end_bounds", "lemma_be_bound", "lemma_be_prefix", "lemma_b128_prefix", "lemma_b128end_prefix")]
+# the three longest asn1 functions are verified by several workers each (same function, obligations partitioned)
+def _split(jobs, names, n):
+    out = []
+    for jb in jobs:
+        if jb["key"] in names:
+            out += [dict(jb, part=[k, n]) for k in range(n)]
+        else:
+            out.append(jb)
+    return out
+
+
+ASN1_FUNCS = _split(ASN1_FUNCS, {"asn1:_pack_asn1", "asn1:_pack_asn1_integer", "asn1:_read_asn1_integer", "asn1:_read_asn1_header"}, 4)
 FRAME_READERS = [j("asn1:" + n) for n in ("ASN1Reader.read_sequence", "_read_asn1_sequence", "_validate_tag", "_read_asn1_header",
                                            "_unpack_asn1_octet_number", "ASN1Reader.get_remaining_data")]
 
